@@ -51,4 +51,54 @@ TEXTS = {
   "note": "Trusted: Lean kernel, the hand-written search model (validated trace-exactly on every explored case), harness/driver, KeyMoves hypothesis for pv_legal. time/nps tokens are not modelled.",
   "technique": "Lean 4 proof (induction over iterations and over the recursion with a frame invariant) + trace-exact differential correspondence",
  },
+ "C13": {
+  "level": "Lean theorems over the search model, for every game / position / initial cache / node budget / stop point / monotone clock: no cache insert happens after an abort check has fired "
+           "(every cached value comes from a completely searched subtree), and from an interrupted state no further node is visited. Tied to the code trace-exactly: for each position the search "
+           "is re-run under every node budget 1..N+1 and with a stop at every k-th poll; the observer hook's insert log (nodes, budget, running flag) must show no insert after the interruption and must equal the model's.",
+  "note": "Trusted: Lean kernel, hand-written search model (trace-exact correspondence), the observer / poll hooks (cfg rce_verif), harness/driver. Assumes a monotone clock. The ply-255 dummy return is not an interruption.",
+  "technique": "Lean 4 proof (invariant: aborted => every later abort check fires; inserts dominated by a non-firing check) + exhaustive interruption-point correspondence",
+ },
+ "C11": {
+  "level": "Lean theorem over the search model for every game, position with a legal move, depth >= 1, initial cache and killers: with the cache neutralised and no limits the root score of the "
+           "fail-hard PVS search and the value of the chosen move equal the plain minimax value of the engine's look-ahead game (check extension, capture quiescence with stand-pat, draw cuts, "
+           "mate distance, ply cap). Tied to the code: search model trace-exact; root score and chosen-move value compared with an independent reference minimax on generated positions with and without history.",
+  "note": "Trusted: Lean kernel, search model, the cache-off hook, harness/driver; the executable reference uses textbook alpha-beta pruning (the theorem is about plain negamax; that the pruned reference "
+          "equals it is standard and not proved here). EvalBoundedFrom hypothesis.",
+  "technique": "Lean 4 proof (Good-invariant for fail-hard windows, permutation invariance of ordering, induction on fuel) + differential correspondence against a reference minimax",
+ },
+ "C16": {
+  "level": "Lean theorem: with no move time and no clock control the entire search result (best move, score, nodes, info lines, every cache write, the cache) is independent of the clock; the model is a "
+           "function of (position incl. history, depth, initial cache) only. Tied to the code: every case run 3x in-process with identical full traces equal to the model's prediction; the real binary "
+           "run in separate processes, under 16-way CPU load, and bench twice with equal node totals.",
+  "note": "Trusted: Lean kernel, search model (trace-exact), harness/driver. Nondeterminism below the model (e.g. a future HashMap iteration) is only excluded by the repeated-run correspondence.",
+  "technique": "Lean 4 proof (non-interference of the clock) + repeated-run / multi-process differential correspondence",
+ },
+ "C09": {
+  "level": "Lean theorems over the search model for every game, position with a legal move, every limit combination, clock, stop point and i16-valued initial cache: the single bestmove answered is a "
+           "legal move of the searched position; the ply counter stays in 0..255 (no index / u8 overflow). Tied to the code trace-exactly incl. every node budget and stop point (fallback move when the "
+           "first iteration is interrupted); the real binary is driven with limit mixes and consecutive go commands for count, legality, latency and readyok.",
+  "note": "PARTIAL for the wall-clock clause: latency is measured on the real binary with an allowance, not proved. Trusted: Lean kernel, search model, hooks, harness/driver, OS scheduling.",
+  "technique": "Lean 4 proof (range invariant on returned scores, root-loop invariant) + trace-exact correspondence + process-level timing runs",
+ },
+ "C07": {
+  "level": "Lean theorems for every valid rules position p: the reader model accepts the FEN text render(p) (6- and 4-field) and the loaded board abstracts back to exactly p (placement, side, four rights, "
+           "en-passant file, both counters); for consistent p the loaded board is well-formed with key = from-scratch key, so C02/C03/C04 apply from then on. The reader model is tied to Board::from_fen by "
+           "comparing full state dumps (and subsequent play) on a generated FEN family incl. castling-letter permutations, 4-field form, extra blanks.",
+  "note": "Trusted: Lean kernel, the spec writer Rules.render (short, readable), the hand-written reader model (validated against from_fen on every generated string), harness/driver. Invalid FEN is out of scope.",
+  "technique": "Lean 4 proof (run-length placement induction, field splitting, decimal round trip) + differential correspondence",
+ },
+ "C01": {
+  "level": "Lean theorems for every legal-game position (well-formed, both kings present, side that just moved not in check): attacked-square sets and check status equal the rules spec's; the generated "
+           "pseudo-legal moves are, as (from,to,promotion) triples, a permutation without duplicates of the spec's; hence the legal moves offered are exactly the spec's legal moves and checkmate / stalemate "
+           "are recognised exactly (via C06 for all occupancies and the one-step refinement of C03). Tied to the code by the walk stream: legal sets, check flags, attacked sets vs the spec on every explored position.",
+  "note": "Trusted: Lean kernel, the rules spec (validated by published perft numbers), model (validated on every explored position), harness/driver.",
+  "technique": "Lean 4 proof (attack exactness lifted through folds; per-piece permutation + nodup; filter transfer) + differential correspondence against an independent rules spec",
+ },
+ "C03": {
+  "level": "Lean refinement theorems: for every legal-game position and every generated move the new board stands for exactly Rules.apply of the old one (placement, side, the four rights, en-passant file, "
+           "half-move clock, full-move number); a legal move leads to a legal-game position; by induction the statement holds for legal games of any length from the start position (proved legal) or any "
+           "consistent FEN (C07); the repetition record is exactly the list of keys of the earlier positions. Tied to the code by the walk stream against the independent rules state machine.",
+  "note": "Trusted: Lean kernel, the textbook state machine Rules.apply (spec), model (validated on every explored position), harness/driver. Counters are Nat in the model (u16 in the code).",
+  "technique": "Lean 4 proof (one-step refinement by move kind + induction over games) + differential correspondence against an independent state machine",
+ },
 }
